@@ -195,7 +195,7 @@ FINER = ["county_fips", "county_classification", "unit"]
 
 def api_histories(run, n):
     rng = run.rng
-    for _ in range(n):
+    for i_ in range(n):
         e = E.gen_election(rng, size=rng.choice(["small", "medium"]), roles=["reporting"] * 6 + ["partial"] * 3 + ["zero-percent"],
                            min_reporting=14)
         B = rng.choice([3, 5, 10])
@@ -215,9 +215,12 @@ def api_histories(run, n):
             lists.append(list(perm))
         contest_names = sorted(set(e.states) | set(e.cur["postal_code"]))
         nat = {s: rng.choice([1, 3, 10, 29]) for s in contest_names}
-        calls = {}
-        if rng.random() < 0.4:
-            calls = {"lhs_called_contests": [e.states[0]]} if rng.random() < 0.5 else {"stop_model_call": [e.states[-1]]}
+        # race calls and call-stops name contests; they are passed along with every aggregate list of the history (the first
+        # histories of a pass: called for the left, for the right + a stop, a stop only, none; later ones at random)
+        kind = ["lhs", "rhs+stop", "stop", "none"][i_] if i_ < 4 else rng.choice(["lhs", "rhs+stop", "stop", "none", "none"])
+        calls = {"lhs": {"lhs_called_contests": [e.states[0]]},
+                 "rhs+stop": {"rhs_called_contests": [e.states[0]], "stop_model_call": [e.states[-1]]},
+                 "stop": {"stop_model_call": [e.states[-1]]}, "none": {}}[kind]
         alphas = [0.5, 0.9]
         results = []
         case = {"api": True, "election": e.describe(), "B": B, "aggregate_lists": lists, "weights": nat, "calls": calls,
@@ -243,8 +246,12 @@ def api_histories(run, n):
         if any("raises" in r for r in results):
             if all(r.get("raises") == "ModelNotEnoughSubunitsException" for r in results):
                 continue
+            # known finding KF-5 (b): with calls, every list that names `district` in a state-level election is rejected
+            failing = [a for a, r in zip(lists, results) if "raises" in r]
+            kf5b = (state_office_with_districts and bool(calls) and all("district" in a for a in failing)
+                    and all(r.get("raises") in (None, "BootstrapElectionModelException") for r in results))
             run.violation("bootstrap run failed for an aggregate list", input=case, impl=results, predicate="natsum_no_fail",
-                          signature="C08:run-raise", election=e.to_json())
+                          signature="KF-5" if kf5b else "C08:run-raise", election=e.to_json())
             continue
         ref = results[0]["out"]
         for aggs, r in zip(lists, results):
